@@ -8,10 +8,49 @@ type propMeta struct {
 	Assumptions []string
 }
 
-var commonAssumptions = []string{
+var engineAssumptions = []string{
 	"go/packages + go/ssa (x/tools v0.29.0) lower /repo's working tree to SSA equivalent to what gc compiles; mitigated by replaying solver models of passing paths through the natively compiled harness (traces_validated_against_impl)",
-	"engine semantics of each SSA instruction and of the intrinsics listed in DESIGN.md §3.3 (math/big at API level over SMT Int, asm leaves of internal/bytealg, fmt.Errorf/errors.Is identity model, sync and sync/atomic as plain memory)",
-	"solver soundness (z3 4.8.12); any (error line, unknown or timeout makes the run inconclusive (exit 2), never green",
+	"engine semantics of each SSA instruction and of the intrinsics of DESIGN.md §3.3 (math/big at API level over SMT Int, asm leaves of internal/bytealg, fmt.Errorf/errors.Is identity model, sync and sync/atomic as plain memory, reflect subset, mapstructure.Decode model)",
+	"solver soundness: z3 4.8.12 primary; cvc5 1.0.3 --solve-bv-as-int=sum answers multiplication-heavy queries the bit-blaster gives up on; uninterpreted abstraction of multipliers is used only for unsat; small-domain enumeration decides queries over <=17 independent bits exactly; any (error line, unknown or timeout makes the run inconclusive (exit 2), never green",
 }
 
-var propertyMeta = map[string]propMeta{}
+var worldAssumptions = []string{
+	"world stubs (DESIGN.md §4): lazily generated account storage constrained by Inv, accounts adapter (one address = one account object), shard function as lazily filled table over {self, other, metachain}, payability oracle as symbolic (bool, error) table, abstract codec (Unmarshal(Marshal(x)) = x after Reset, empty role list encodes to empty string; contract discharged for the generated code by C14)",
+	"node assumptions (DESIGN.md §4.7): built-in calls are atomic (single-threaded processor), failed calls are rolled back, cross-shard results are delivered exactly once, refunds are flagged return-after-error, the gogo marshaller is Reset + generated Unmarshal",
+	"stated bound: NFT counters are below 2^64-1; token properties are only ever {0|1, 0} (written by ESDTUserMetadata.ToBytes)",
+}
+
+func meta(bounds, outside []string, world bool, extra ...string) propMeta {
+	a := append([]string{}, engineAssumptions...)
+	if world {
+		a = append(a, worldAssumptions...)
+	}
+	a = append(a, extra...)
+	return propMeta{Bounds: bounds, Outside: outside, Assumptions: a}
+}
+
+var quickArgs = "quick tier argument shapes: token id 2 bytes (C02: {0,2}), nonce argument {0,1,2} bytes (1 byte where the nonce is not the subject), amounts {0,1,8,9} bytes where the amount is the subject else 1 byte, metadata fields 1 byte, <=1 URI, addresses 32 (and 31) bytes; thorough tier: token id 0..3, nonce {0,1,2,8,9}, amounts 0..16 bytes, multi-byte nonce splits in generated metadata"
+
+var propertyMeta = map[string]propMeta{
+	"C01": meta([]string{quickArgs, "k <= 2 tokens per multi-transfer (repeats allowed: ids are independent symbolic strings)", "balances unbounded (SMT Int)", "one send step, one deliver step (fresh arbitrary destination world sharing only the codec), one immediate refund step per function", "quick tier pins: gas >= 2^48, DirectCall, no return-after-error on the send step, no pause/freeze variety on the send step (C04's subject), single-byte nonce split (F3's class is explored in the thorough tier)"},
+		[]string{"k > 2, token ids > 3 bytes", "destination = system account address (finding F10, decided by C15_SystemAccountDestination)", "node rollback and exactly-once delivery are assumed, not encoded", "refund after intervening operations on the sender (only the immediate refund is executed)"}, true),
+	"C02": meta([]string{quickArgs, "balances unbounded (SMT Int); amounts up to 9 bytes (quick) / 16 bytes (thorough)"}, []string{"the 100/101-byte ESDTLocalMint length boundary (arguments > 16 bytes)", "transfers (C01)"}, true),
+	"C03": meta([]string{"role lists of <= 2 pairwise-distinct symbolic entries of length 15/17/22/27 (covers every protocol role constant and arbitrary others)", "32-byte symbolic callers, owners, one configured DNS address"}, []string{"role lists with > 2 entries", "more than one DNS address"}, true),
+	"C04": meta([]string{quickArgs, "frozen bit and pause flag symbolic in the generated pre-state; return-after-error symbolic", "multi-transfer with 2 tokens only in the thorough tier"}, []string{"NFT entries are gated by their own Properties (DESIGN.md §12: the statement speaks of fungible freezing)"}, true),
+	"C05": meta([]string{"SaveKeyValue keys of length 0/5/6/7 (quick) or 0..10 (thorough), values 0..2 bytes, 1-2 pairs, stored raw values 0..2 bytes", quickArgs}, []string{"keys > 10 bytes, more than 2 pairs"}, true),
+	"C06": meta([]string{"GasProvided: all 2^64 values; every schedule entry: all non-zero 32-bit values (zero-extended 32-bit variables)", "argument shapes: smallest per function (the gas logic does not depend on argument bytes), multi-transfer k in {1,2}"}, []string{"total argument length >= 2^32 bytes (per-byte products cannot wrap below that)"}, true),
+	"C07": meta([]string{"counter cell: absent, 1 byte or 8 bytes (all values below 2^64-1)", "hand-over to an account on the same shard, another shard, or the holder itself; repeated delivery"}, []string{"a duplicate delivery after the new holder already created (excluded by exactly-once delivery; the code would rewind the counter - DESIGN.md F8)"}, true),
+	"C08": meta([]string{"metadata fields 0..1 bytes (quick: 1), <= 2 URIs, royalties 2 and 9-byte arguments (covers 0/10000/10001/2^32+1)", "abstract codec; real encoder is C14's subject"}, []string{"field lengths > 2 bytes", "chains are covered by induction (one hop preserves metadata), not executed"}, true),
+	"C09": meta([]string{"payability oracle: payable / not payable / error per address; call type all four values; caller symbolic (may be the system contract); 0..2 attached-call arguments", "multi-transfer k in {1,2} on the destination side, 1 on the sender side"}, nil, true),
+	"C10": meta([]string{"attached-call function names: non-empty, '@'-free, 1 byte (quick); arguments 1 byte; numbers with leading zeros and 8/9-byte values in the parser/ledger harnesses; k <= 2"}, []string{"names containing '@' or empty (outside C12's stated domain)"}, true),
+	"C11": meta([]string{"count sweep: any argument count in 0..len(spec)+1 with one-byte items (32-byte addresses)", "content sweep: full count, numbers 0/1/8 bytes (quick) + 2/9 (thorough) so that 2^64-1 and every residue of 3n+c are in range, token ids 2 bytes (0..3 thorough), addresses 32 (31/33 thorough)", "make() sizes must not exceed len(arguments)+4", "destination-side executions get protocol-shaped payloads"}, []string{"argument counts beyond len(spec)+1 (multi: 9), items longer than 9 bytes", "gas pinned >= 2^48 in this property's scenarios (gas-dependent behaviour is C06's)"}, true),
+	"C12": meta([]string{"arbitrary strings (all 256 byte values per position) of length <= 5 (quick) / 8 (thorough) for the three text parsers", "round trips: names 1..3 bytes without '@', <= 3 arguments of 0..2 (3) bytes", "transfer parser: same adversarial argument sweeps as C11"}, []string{"longer strings (behaviour is per-token; argued, not proved)"}, false,
+		"abstract codec for the ESDT-transfer parser's decode step"),
+	"C13": meta([]string{"all 23 functions, smallest argument shapes, arguments slice with spare capacity", "second run on the world reset to its generated pre-state with the same function object and the same oracle answers"}, []string{"goroutine identity: only in the sense that no goroutine-, time- or randomness-dependent API is reachable (an un-modelled call is inconclusive)", "an unrelated call between the two runs"}, true),
+	"C14": meta([]string{"amount codec: nil and every +-m with m < 256^4 (quick) / 256^6, arbitrary pre-filled buffer; decoder on every buffer of length 0..5 (7)", "varint kernel: all 64-bit values (10 length classes) through MetaData.Nonce", "messages: scalar fields in {0,1,127,128} (quick) / all values < 128 (thorough), byte fields 0..2 bytes, <= 2 repeated items, metadata nil/non-nil; decoders on arbitrary buffers of length 0..4 (6)"}, []string{"buffers > 7 bytes; mutated valid encodings (random generation is another technique)"}, false),
+	"C15": meta([]string{quickArgs, "Inv (DESIGN.md §4.6) assumed on every generated cell, asserted on every logged write of all 23 functions"}, []string{"role-list duplicates under ESDTSetRole only under the stated system-contract discipline"}, true),
+	"C16": meta([]string{"22 independent symbolic schedule entries (non-zero 32-bit), arbitrary prior prices, GasProvided symbolic; equation asserted on funded sender-side executions", "argument sizes: smallest shapes plus SaveKeyValue pairs 0..2 bytes"}, []string{"factory GasScheduleChange broadcast over accepted/rejected maps (covered for construction only by C18)"}, true),
+	"C17": meta([]string{"one symbolic fault bit per call of SaveKeyValue(trie), LoadAccount, SaveAccount, Marshal, Unmarshal, IsPayable, AddToBalance, ChangeOwnerAddress, ClaimDeveloperRewards - every subset of faults on every path", "storage reads and the pause lookup are fail-soft by interface design (excluded by the property)"}, nil, true),
+	"C18": meta([]string{"epoch and activation epoch: all 2^32 x 2^32 values; prior state: never notified / one / two arbitrary notifications", "factory executed with a symbolic accepted schedule; container Keys() over 23 entries (2 iteration orders)"}, []string{"iteration orders of the 23-entry map beyond insertion order and its reverse"}, true),
+	"C20": meta([]string{"all 65 536 byte pairs per flag codec, lengths 0..4", "addresses of every length 0..40 with all bytes symbolic; identifiers 0..3 bytes", "SafeSubUint64: all 2^128 pairs", "MergeOutputAccounts: accounts over nil/present deltas (unbounded Int), nil/empty/1/2 storage updates over a shared 2-key universe, 0..2 transfers; write monitor over the merged-in account across two merges"}, nil, false),
+}
